@@ -85,10 +85,26 @@ class FISTA(BaseSolver):
             Xw = X @ w
             z = w + (t_old - 1.) / t_new * (w - w_old)
 
+            # the optimality violation of w is measured with the gradient at w
+            # (`grad` above is the gradient at the extrapolated point z)
+            if X_is_sparse:
+                if hasattr(datafit, "gradient_sparse"):
+                    grad_w = datafit.gradient_sparse(
+                        X.data, X.indptr, X.indices, y, Xw)
+                else:
+                    grad_w = construct_grad_sparse(
+                        X.data, X.indptr, X.indices, y, w, Xw, datafit, all_features)
+            else:
+                if hasattr(datafit, "gradient"):
+                    grad_w = datafit.gradient(X, y, Xw)
+                else:
+                    grad_w = construct_grad(X, y, w, Xw, datafit, all_features)
+
             if self.opt_strategy == "subdiff":
-                opt = penalty.subdiff_distance(w, grad, all_features)
+                opt = penalty.subdiff_distance(w, grad_w, all_features)
             elif self.opt_strategy == "fixpoint":
-                opt = np.abs(w - penalty.prox_vec(w - grad / lipschitz, 1 / lipschitz))
+                opt = np.abs(
+                    w - penalty.prox_vec(w - grad_w / lipschitz, 1 / lipschitz))
             else:
                 raise ValueError(
                     "Unknown error optimality strategy. Expected "
